@@ -164,12 +164,18 @@ def seeded(args):
             rows.append((name, "baseline tests with the patch: %s (%s)" % ("pass" if ok else "FAIL", tail[:60])))
             demo = os.path.join(base, name, "demo.py")
             if os.path.exists(demo):
-                shutil.copy(demo, os.path.join(d, "demo.py"))
+                def put_demo(target):
+                    # the agents' demos name their worktree (/tmp/wt-Cnn) in paths and assertions: point them at the copy
+                    with open(demo) as f:
+                        text = f.read()
+                    with open(os.path.join(target, "demo.py"), "w") as f:
+                        f.write(re.sub(r"/tmp/wt-C\d\d", target, text))
+                put_demo(d)
                 env = dict(os.environ, PYTHONPATH=d, PYTHONDONTWRITEBYTECODE="1")
                 r1 = subprocess.run(["/venv/bin/python", "demo.py"] + meta.get("demo_args", []), cwd=d, env=env, stdout=subprocess.PIPE, stderr=subprocess.STDOUT).returncode
                 d0 = make_copy()
                 try:
-                    shutil.copy(demo, os.path.join(d0, "demo.py"))
+                    put_demo(d0)
                     r0 = subprocess.run(["/venv/bin/python", "demo.py"] + meta.get("demo_args", []), cwd=d0, env=dict(env, PYTHONPATH=d0), stdout=subprocess.PIPE, stderr=subprocess.STDOUT).returncode
                 finally:
                     shutil.rmtree(d0, ignore_errors=True)
